@@ -1530,6 +1530,13 @@ class _Deep(ast.NodeTransformer):
                 ast.fix_missing_locations(out[i])
                 self.changed = True
                 continue
+            # D19c: `if a: return E1` `return E2` (end of the block)  ->  `return E1 if a else E2`
+            if isinstance(s, ast.If) and not s.orelse and len(s.body) == 1 and isinstance(s.body[0], ast.Return) and s.body[0].value is not None and i + 2 == len(out) and isinstance(out[i + 1], ast.Return) and out[i + 1].value is not None:
+                out[i] = ast.copy_location(ast.Return(value=ast.IfExp(test=s.test, body=s.body[0].value, orelse=out[i + 1].value)), s)
+                ast.fix_missing_locations(out[i])
+                del out[i + 1]
+                self.changed = True
+                continue
             # D16: `D.setdefault(K, <fresh empty container>).m(..)`  ->  `k = K` `if k not in D: D[k] = <..>` `D[k].m(..)`
             if isinstance(s, ast.Expr) and isinstance(s.value, ast.Call) and isinstance(s.value.func, ast.Attribute) and isinstance(s.value.func.value, ast.Call):
                 sd = s.value.func.value
